@@ -1,11 +1,31 @@
 /- driver handlers for stream C06 (text and radix conversions) -/
 import NB.Wire
 import NB.Model.Radix
+import NB.Model.RadixD
 import NB.Model.AsmParams
 namespace NB.Drv.C06
 open NB NB.Wire NB.Radix
 
 def P := NB.Gen.P
+
+/-! model column of the general-radix OUTPUT ops: the digit-level definitions of NB.Model.RadixD
+    (`divRemDigit`, `divRemRef`, `Mul.mulRef`, `cmpSlice` on the digit vectors), proved equal to the value-level
+    ones in NB.Props.C06 (`to_radix_le_refines`, `bigint_to_radix_refines`, `format_refines`). -/
+
+/-- size cap in limbs above which the model column would fall back to the value-level model
+    (List-based Knuth division is quadratic with a large constant: 2000 limbs ≈ 2.8 s per request).
+    `0` = no cap: every request runs at digit level. -/
+def dCap : Nat := 0
+
+def useD (a : List Nat) : Bool := dCap == 0 || a.length ≤ dCap
+
+def mToStrU (a : List Nat) (r : Nat) := if useD a then toStrRadixUD P a r else toStrRadixU P a r
+def mToStrI (a : BigInt) (r : Nat) := if useD a.mag then toStrRadixID P a r else toStrRadixI P a r
+def mToRadixLe (a : List Nat) (r : Nat) := if useD a then toRadixLeD P a r else toRadixLe P a r
+def mToRadixBe (a : List Nat) (r : Nat) := if useD a then toRadixBeD P a r else toRadixBe P a r
+def mToRadixLeI (a : BigInt) (r : Nat) := if useD a.mag then BigInt.toRadixLeD P a r else BigInt.toRadixLe P a r
+def mToRadixBeI (a : BigInt) (r : Nat) := if useD a.mag then BigInt.toRadixBeD P a r else BigInt.toRadixBe P a r
+def mFmt (k : FmtKind) (f : FmtSpec) (x : BigInt) := if useD x.mag then formatD P k f x else format P k f x
 
 /-- stack-safe `x<hex>` parser (texts reach 10^5 bytes) -/
 def parseBytesTR (s : String) : Option (List Nat) :=
@@ -95,16 +115,16 @@ def oFormat (id : Nat) (x : Int) : Option (Except Panic (List Nat)) :=
 def mFormat (id : Nat) (x : BigInt) : Option (Except Panic (List Nat)) :=
   match fmtTable[id]? with
   | none => none
-  | some (k, f) => some (format P k f x)
+  | some (k, f) => some (mFmt k f x)
 
 def handle (op : String) (args : List String) : Option (String × String) :=
   match op, args with
   | "u.to_str", [a, r] => do
     let a ← parseLimbs a; let r ← parseNat r
-    pure (sb (toStrRadixU P a r), sb (oStr r false (val a)))
+    pure (sb (mToStrU a r), sb (oStr r false (val a)))
   | "i.to_str", [a, r] => do
     let a ← parseBigInt a; let r ← parseNat r
-    pure (sb (toStrRadixI P a r), sb (oStr r (a.val < 0) a.val.natAbs))
+    pure (sb (mToStrI a r), sb (oStr r (a.val < 0) a.val.natAbs))
   | "u.from_str", [r, s] => do
     let r ← parseNat r; let s ← parseBytesTR s
     pure (showParseU (fromStrRadixU s r), showParseU (oParseU r s))
@@ -127,16 +147,16 @@ def handle (op : String) (args : List String) : Option (String × String) :=
     pure (showOptE showBigInt (parseBytesI s r), showOptE showBigInt o)
   | "u.to_radix_le", [a, r] => do
     let a ← parseLimbs a; let r ← parseNat r
-    pure (sb (toRadixLe P a r), sb ((oRadixBE r (val a)).map List.reverse))
+    pure (sb (mToRadixLe a r), sb ((oRadixBE r (val a)).map List.reverse))
   | "u.to_radix_be", [a, r] => do
     let a ← parseLimbs a; let r ← parseNat r
-    pure (sb (toRadixBe P a r), sb (oRadixBE r (val a)))
+    pure (sb (mToRadixBe a r), sb (oRadixBE r (val a)))
   | "i.to_radix_le", [a, r] => do
     let a ← parseBigInt a; let r ← parseNat r
-    pure (ssd (BigInt.toRadixLe P a r), ssd ((oRadixBE r a.val.natAbs).map (fun d => ((BigInt.ofInt a.val).sign, d.reverse))))
+    pure (ssd (mToRadixLeI a r), ssd ((oRadixBE r a.val.natAbs).map (fun d => ((BigInt.ofInt a.val).sign, d.reverse))))
   | "i.to_radix_be", [a, r] => do
     let a ← parseBigInt a; let r ← parseNat r
-    pure (ssd (BigInt.toRadixBe P a r), ssd ((oRadixBE r a.val.natAbs).map (fun d => ((BigInt.ofInt a.val).sign, d))))
+    pure (ssd (mToRadixBeI a r), ssd ((oRadixBE r a.val.natAbs).map (fun d => ((BigInt.ofInt a.val).sign, d))))
   | "u.from_radix_le", [r, s] => do
     let r ← parseNat r; let s ← parseBytesTR s
     pure (showOptE showLimbs (fromRadixLe s r), showOptE showLimbs ((oFromRadixBE r s.reverse).map (·.map ofNat)))
@@ -160,7 +180,7 @@ def handle (op : String) (args : List String) : Option (String × String) :=
     let m ← mFormat id (uOfInt (val a)); let o ← oFormat id (val a)
     -- the model receives the limbs verbatim
     let m' := match fmtTable[id]? with
-      | some (k, f) => format P k f ⟨if a = [] then .nosign else .plus, a⟩
+      | some (k, f) => mFmt k f ⟨if a = [] then .nosign else .plus, a⟩
       | none => m
     pure (sb m', sb o)
   | "i.fmt", [id, a] => do
